@@ -10,6 +10,11 @@ CHECKS = {
    text="Inductive step over an arbitrary valid ring: for capacities {8,9,16} (thorough: 8..17,32,64) head, tail and elements are symbolic, so one solver query per assertion covers every layout; each operation's result, abstraction and invariant are compared with the queue model. With the base case (NewRingBuffer) this covers operation sequences of any length at those capacities; growth steps 8->16->32 (all layouts) and 64/1024/1127 (+10% regime) are checked from full rings. Bounded, not a proof: capacities outside the set are not machine-argued.",
    note="Trusted: the gse executor (validated per run by replaying solver-chosen witness models natively and comparing reach labels/assertions), the SMT solvers, go/ssa. Assumes Discard(n>=0), 64-bit int.",
    design="§4 C20"),
+
+ "C04": dict(
+   text="Inductive step from an arbitrary valid protocol-core state (all scalar fields, sequence numbers, clock, windows symbolic; queue shapes from a small family): after Input of arbitrary bytes (forged una/sn/wnd/len/cmd), flush, Recv and Send the buffering limits (delivery queue and reorder buffer <= rcv_wnd, in flight <= snd_wnd), the truthful-window clause on every emitted header (decoded by an independent decoder), the admission rule min(snd_wnd, rmt_wnd[, cwnd]) and the RTO->cwnd=1 rule hold, and the representation invariant is preserved, so the limits hold after histories of any length within the shape bound. Bounded symbolic model checking, not a proof.",
+   note="Trusted: gse, solvers, the hand-written invariant (its inductiveness is what is checked; conjuncts labelled inv/ are lemma level). Shapes <= 2 per queue, datagrams <= 96 bytes with <= 1 (quick) / 2 (thorough) segments.",
+   design="§4 C04"),
 }
 
 NOT_APPLICABLE = {}
